@@ -213,8 +213,9 @@ class UMFPACKSolver(SuiteSparseSolver):
             umfpack.linsolve(A, b)
         except ArithmeticError:
             logger.error('Singular matrix. Case is not solvable')
-            # `b` is unchanged on failure and must not be taken as the solution
-            return np.ravel(matrix(np.nan, b.size, 'd'))
+            # `b` is unchanged on failure and must not be taken as the solution,
+            # neither through the return value nor in place
+            b[:] = np.nan
         return np.ravel(b)
 
 
@@ -240,6 +241,7 @@ class KLUSolver(SuiteSparseSolver):
             klu.linsolve(A, b)
         except ArithmeticError:
             logger.error('Singular matrix. Case is not solvable')
-            # `b` is unchanged on failure and must not be taken as the solution
-            return np.ravel(matrix(np.nan, b.size, 'd'))
+            # `b` is unchanged on failure and must not be taken as the solution,
+            # neither through the return value nor in place
+            b[:] = np.nan
         return np.ravel(b)
